@@ -1223,7 +1223,7 @@ def run_layout(ctx: Ctx, out: Outcome, label: str, size: str) -> None:
     if not dgs:
         shutil.rmtree(base, ignore_errors=True)
         return
-    nd = len(dgs) if ctx.thorough else (min(len(dgs), 2) if size == "small" else 4)
+    nd = (len(dgs) if size == "small" else min(len(dgs), 12)) if ctx.thorough else (min(len(dgs), 2) if size == "small" else 4)
     sel = rng.sample(dgs, nd)
     edits: list[dict] = []
     for d in sel:
